@@ -77,10 +77,7 @@ func (w *World) hasherGuard(a *blsAnchors, rule string) *ssa.Function {
 			}
 		}
 	})
-	if cand == nil {
-		w.viol(rule, fnKey(a.verify)+"/hasher-guard", a.verify.Pos(), "Verify does not call a hasher validation helper (error-returning function of the Hasher) at all")
-	}
-	return cand
+	return cand // nil when the validation is inlined: the rules then rely on the direct facts
 }
 
 // ruleHasherGuardBody: the helper returns nil only when hasher != nil and Size() == expandMsgOutput.
@@ -162,9 +159,7 @@ func (w *World) ruleVerifyGuards(rule string, a *blsAnchors, g *ssa.Function) {
 	recv, sig, data, hasher := P(fn, 0), P(fn, 1), P(fn, 2), P(fn, 3)
 	key := fnKey(fn) + "/cgo:bls_verify"
 	wants := []string{fmt.Sprintf("len(%s) == %d", sig, a.sigLen), fmt.Sprintf("%s.%s == false", recv, a.flagField)}
-	if g != nil {
-		wants = append(wants, fmt.Sprintf("%s(%s) == nil", g.Name(), hasher))
-	}
+	wants = append(wants, hasherFacts(hasher, a)...)
 	w.requireFacts(rule, key, c, wants...)
 	// argument binding
 	H := fmt.Sprintf("%s.ComputeHash(%s)", hasher, data)
@@ -174,11 +169,15 @@ func (w *World) ruleVerifyGuards(rule string, a *blsAnchors, g *ssa.Function) {
 		w.check(got == e, rule, fmt.Sprintf("%s/arg%d", key, i), c.Pos(), "argument is "+e, "argument "+fmt.Sprint(i)+" of C.bls_verify is `"+got+"`, expected `"+e+"`")
 	}
 	// the hasher is only used after it was validated
-	if g != nil {
-		for _, ch := range callsTo(fn, "ComputeHash") {
-			w.requireFacts(rule, fnKey(fn)+"/ComputeHash", ch, fmt.Sprintf("%s(%s) == nil", g.Name(), hasher))
-		}
+	for _, ch := range callsTo(fn, "ComputeHash") {
+		w.requireFacts(rule, fnKey(fn)+"/ComputeHash", ch.(ssa.Instruction), hasherFacts(hasher, a)...)
 	}
+}
+
+// hasherFacts: what "the hasher was validated" means, whether the test is inlined or sits in a helper
+// (helper guards are expanded into these facts by the summary mechanism of the fact engine).
+func hasherFacts(h string, a *blsAnchors) []string {
+	return []string{h + " != nil", fmt.Sprintf("%s.Size() == %d", h, a.hashLen)}
 }
 
 func (w *World) ruleSignGuards(rule string, a *blsAnchors, g *ssa.Function) {
@@ -191,11 +190,9 @@ func (w *World) ruleSignGuards(rule string, a *blsAnchors, g *ssa.Function) {
 	c := sites[0]
 	data, hasher := P(fn, 1), P(fn, 2)
 	key := fnKey(fn) + "/cgo:bls_sign"
-	if g != nil {
-		w.requireFacts(rule, key, c, fmt.Sprintf("%s(%s) == nil", g.Name(), hasher))
-		for _, ch := range callsTo(fn, "ComputeHash") {
-			w.requireFacts(rule, fnKey(fn)+"/ComputeHash", ch, fmt.Sprintf("%s(%s) == nil", g.Name(), hasher))
-		}
+	w.requireFacts(rule, key, c, hasherFacts(hasher, a)...)
+	for _, ch := range callsTo(fn, "ComputeHash") {
+		w.requireFacts(rule, fnKey(fn)+"/ComputeHash", ch.(ssa.Instruction), hasherFacts(hasher, a)...)
 	}
 	H := fmt.Sprintf("%s.ComputeHash(%s)", hasher, data)
 	w.check(render(c.Call.Args[2]) == "&"+H+"[0]" && render(c.Call.Args[3]) == "len("+H+")", rule, key+"/hash-args", c.Pos(),
@@ -612,12 +609,11 @@ func ruleC02(w *World) {
 			w.check(render(c.Call.Args[0]) == "&"+sig+"[0]", "C02.R2", key+"/arg0", c.Pos(), "signature pointer is &sig[0]", "first argument is not the signature buffer: "+render(c.Call.Args[0]))
 		}
 		// hashers validated before use
-		if g != nil {
-			for _, ch := range callsTo(fn, "ComputeHash") {
-				recv := render(ch.Common().Value)
-				w.requireFacts("C02.R2", fnKey(fn)+"/ComputeHash", ch.(ssa.Instruction), fmt.Sprintf("%s(%s) == nil", g.Name(), recv))
-			}
+		for _, ch := range callsTo(fn, "ComputeHash") {
+			recv := render(ch.Common().Value)
+			w.requireFacts("C02.R2", fnKey(fn)+"/ComputeHash", ch.(ssa.Instruction), hasherFacts(recv, a)...)
 		}
+		_ = g
 		// the hash used at position i is exactly hasher_i(message_i): every element appended to the hash list
 		// is `k.ComputeHash(messages[i])` with k the hasher at the same index
 		nh := 0
@@ -935,9 +931,8 @@ func ruleC03(w *World) {
 	c := sites[0]
 	key := fnKey(fn) + "/cgo:bls_batch_verify"
 	wants := []string{fmt.Sprintf("len(%s) != 0", pks), fmt.Sprintf("len(%s) == len(%s)", pks, sigs)}
-	if g != nil {
-		wants = append(wants, fmt.Sprintf("%s(%s) == nil", g.Name(), kmac))
-	}
+	wants = append(wants, hasherFacts(kmac, a)...)
+	_ = g
 	w.requireFacts("C03.R3", key, c, wants...)
 	// seed: the last argument's buffer is filled by crypto/rand.Read, whose error is checked
 	seed := sliceBase(c.Call.Args[len(c.Call.Args)-1])
